@@ -56,7 +56,10 @@ func genC14(t *rapid.T) *Case {
 	// ---------------- OpenGraph ----------------
 	if g.chance(75, "og") {
 		pfx := "og"
-		switch g.pick("ogprefix", "default", "html-prefix", "head-prefix", "xmlns", "custom", "default") {
+		switch g.pick("ogprefix", "default", "html-prefix", "head-prefix", "xmlns", "custom", "default", "xmlns-custom") {
+		case "xmlns-custom":
+			pfx = "opengraph"
+			htmlAttr = ` xmlns:opengraph="http://ogp.me/ns#"`
 		case "html-prefix":
 			htmlAttr = ` prefix="og: http://ogp.me/ns# article: http://ogp.me/ns/article# profile: http://ogp.me/ns/profile#"`
 		case "head-prefix":
